@@ -98,6 +98,9 @@ class Sim:
         self.current = None        # ThreadState holding the baton (None = driver)
         self.driver_errors = []
         self.max_total_events = 6 * 10 ** 6
+        self.eager_wake = 0.0        # probability that a put() executed by the driver (receive context) runs the woken thread immediately
+        self.eager_switches = 0
+        self.eager_depth = 0         # > 0 while a handler of the driver is suspended in favour of a woken thread
 
     # ---- clock ----------------------------------------------------------------------
     def time(self):
@@ -306,7 +309,18 @@ class VQueue:
         self.n_put += 1
         if self.waiters:
             st = self.waiters.pop(0)
-            CUR.wake(st)
+            sim = CUR
+            if sim.eager_wake and sim.current is None and threading.current_thread() is sim.main and sim.jrng.random() < sim.eager_wake:
+                # the operating system switches to the woken thread at once: it runs in the middle of the (receive) handler that woke it,
+                # until it blocks again; then the handler continues
+                sim.eager_switches += 1
+                sim.eager_depth += 1
+                try:
+                    sim._resume(st, st.token)
+                finally:
+                    sim.eager_depth -= 1
+            else:
+                sim.wake(st)
 
     def put_nowait(self, item):
         self.put(item)
